@@ -304,14 +304,15 @@ def loop_target(loops, node_words):
     return loops[-n]
 
 
-def walk_rule(repo, res, tier, rule="SK-WALK", report_leniency=True):
+def walk_rule(repo, res, tier, rule="SK-WALK", report_leniency=True, only=None):
     names, sets = flag_sets(repo, tier)
     slots = table_slots(repo)
     lit_t = slots.get(("match", "literal"))
     cmd_t = slots.get(("match", "command"))
     star_t = slots.get(("match", "star"))
     lits = slots.get(("literals", "all"))
-    res.check(bool(lit_t and cmd_t and star_t and lits), rule, f"{rule}:slots", f"table variables read from the printers: literal={lit_t} command={cmd_t} star={star_t} literals={lits}", "")
+    if only is None:
+        res.check(bool(lit_t and cmd_t and star_t and lits), rule, f"{rule}:slots", f"table variables read from the printers: literal={lit_t} command={cmd_t} star={star_t} literals={lits}", "")
     if not (lit_t and cmd_t and star_t and lits):
         return
     agg = {}
@@ -431,7 +432,8 @@ def walk_rule(repo, res, tier, rule="SK-WALK", report_leniency=True):
             exits = [n for n, loops, conds, f in B.walk(blk, (wl,)) if n.kind == "simple" and n.words and ((n.words[0] == "break") or (n.words[0] == "return") or (n.words[0] == "continue" and loop_target(loops, n.words) is not wl))]
             rec("W5:scan-ends-only-by-transition", not exits, "the literal scan has no exit other than `continue <walk>` after a transition" if not exits else f"`{' '.join(exits[0].words)}` leaves the literal scan early: a later id with the same text and a transition from this state is never tried", exits[0].line if exits else blk.line)
     for k, (ok, why, line) in sorted(agg.items()):
-        res.check(ok, rule, k, why, f"bash skeleton line {line}")
+        if only is None or k.startswith(f"{rule}:{only}"):
+            res.check(ok, rule, k, why, f"bash skeleton line {line}")
 
 
 def fb_rule(repo, res, tier, rule="SK-FB"):
@@ -730,7 +732,8 @@ def sub_rule(repo, res, tier, rule="SK-SUB"):
 
 
 # ------------------------------------------------------------------ SK-CMD (C17)
-def cmd_rule(repo, res, tier, rule="SK-CMD"):
+def cmd_rule(repo, res, tier, rule="SK-CMD", only=None):
+    """`only`: a key prefix (e.g. "V4:top-level match") when another property shares just that clause (its own known findings stay with C17)"""
     names, sets = flag_sets(repo, tier)
     slots = table_slots(repo)
     cmd_t = slots.get(("match", "command"))
@@ -865,7 +868,10 @@ def cmd_rule(repo, res, tier, rule="SK-CMD"):
                     for y in brk:
                         rec("V7:top-level match:unmatched-word-fails", False, f"`{' '.join(y.words)}` leaves the word walk when the unmatched word is the last complete one: candidates are offered although the word equals none of the command's candidates", y.line)
     for k, (ok, why, line) in sorted(agg.items()):
-        res.check(ok, rule, k, why, f"bash skeleton line {line}")
+        if only is None or k.startswith(f"{rule}:{only}"):
+            res.check(ok, rule, k, why, f"bash skeleton line {line}")
+    if only is not None:
+        return
     # V2: command ids are unoffset and shared (Rust side)
     fn = repo.fn(ENTRY)
     envs = A.collect_envs(fn)
